@@ -12,14 +12,16 @@ TlsPool == << EncRecordRaw(22, 771, <<14, 0, 0, 0>>), EncRecordRaw(20, 771, <<1>
               (* valid messages followed by bytes that are not a message: the single-record parser returns the messages *)
               EncRecordRaw(20, 771, <<1, 0>>), EncRecordRaw(21, 771, <<1, 0, 2>>), EncRecordRaw(22, 771, <<14, 0, 0, 0, 9>>) >>
 TlsTails == << <<>>, SubSeq(TlsPool[1], 1, 7), <<22, 3, 3>>, <<22, 3, 3, 65, 1>>, <<1, 2, 3>>,
-               EncRecordRaw(22, 771, <<99, 0, 0, 0>>), EncRecordRaw(21, 771, <<>>), EncRecordRaw(7, 771, <<1>>) >>
+               EncRecordRaw(22, 771, <<99, 0, 0, 0>>), EncRecordRaw(21, 771, <<>>), EncRecordRaw(7, 771, <<1>>),
+               <<0>>, <<0, 0>>, <<0, 0, 0, 0>> >>                      \* (link-layer padding after the last record is not a record either)
 DtlsPool == << EncDtlsRecord(22, 65277, 0, <<0, 0, 1>>, EncDtlsHs(14, 0, 1, 0, 0, <<>>)),
                EncDtlsRecord(20, 65277, 0, <<0, 0, 2>>, <<1>>), EncDtlsRecord(21, 65277, 1, <<0, 0, 0>>, <<2, 40>>),
                EncDtlsRecord(22, 65277, 1, <<0, 0, 1>>, EncDtlsHs(11, 300, 2, 100, 3, <<7, 8, 9>>)),
                EncDtlsRecord(20, 65277, 4660, <<0, 0, 0>>, <<1>>), EncDtlsRecord(21, 65277, 258, <<43981, 1, 2>>, <<1, 0>>),
                EncDtlsRecord(21, 65277, 65535, <<65535, 65535, 65535>>, <<2, 40>>) >>
 DtlsTails == << <<>>, SubSeq(DtlsPool[1], 1, 17), <<22, 254, 253, 0, 0, 0, 0, 0, 0, 0, 0, 65, 1>>, <<1, 2, 3>>,
-                EncDtlsRecord(23, 65277, 0, <<0, 0, 3>>, <<1>>), EncDtlsRecord(22, 65277, 0, <<0, 0, 3>>, <<>>) >>
+                EncDtlsRecord(23, 65277, 0, <<0, 0, 3>>, <<1>>), EncDtlsRecord(22, 65277, 0, <<0, 0, 3>>, <<>>),
+                <<0>>, <<0, 0>>, <<0, 0, 0, 0>> >>
 
 Mk(fn, single, bytes) == [fn |-> fn, single |-> single, bytes |-> bytes]
 BigTls == << EncRecordRaw(23, 771, Fill(1, 16385)), EncRecordRaw(23, 771, Fill(2, 16640)), EncRecordRaw(22, 771, <<20>> \o BE24(16380) \o Fill(3, 16380)) >>
@@ -43,6 +45,14 @@ DtlsFails == << EncDtlsRecord(22, 65277, 0, <<0, 0, 9>>, EncDtlsHs(1, Len(BadSid
                 EncDtlsRecord(23, 65277, 0, <<0, 0, 3>>, <<1>>), EncDtlsRecord(23, 65277, 1, <<0, 0, 4>>, Fill(1, 100)),
                 EncDtlsRecord(22, 65277, 0, <<0, 0, 3>>, <<>>), EncDtlsRecord(24, 65277, 0, <<0, 0, 3>>, <<1, 0, 0>>),
                 EncDtlsRecord(22, 65277, 0, <<0, 0, 5>>, EncDtlsHs(4, 2, 0, 0, 2, <<1, 2>>)), EncDtlsRecord(20, 65277, 0, <<0, 0, 6>>, <<2>>) >>
+(* a handshake record ending with each kind of message, in first and middle position: what a record holds never ends the walk *)
+LastMsgs == << <<0, 0, 0, 0>>, <<5, 0, 0, 0>>, <<24, 0, 0, 1, 0>>, <<24, 0, 0, 1, 1>>, <<20, 0, 0, 2, 7, 8>>, <<14, 0, 0, 0>>, <<4, 0, 0, 6, 0, 0, 0, 1, 0, 0>>,
+              <<15, 0, 0, 1, 3>>, <<16, 0, 0, 1, 3>>, <<12, 0, 0, 1, 3>>, <<22, 0, 0, 4, 1, 0, 0, 0>>, <<11, 0, 0, 3, 0, 0, 0>>, <<8, 0, 0, 2, 0, 0>> >>
+LastMsgCases ==
+  Concat([m \in 1..Len(LastMsgs) |->
+    << Mk("tls_parser_many", "parse_tls_plaintext", EncRecordRaw(22, 771, LastMsgs[m]) \o TlsPool[2] \o TlsPool[3]),
+       Mk("tls_parser_many", "parse_tls_plaintext", EncRecordRaw(22, 771, <<14, 0, 0, 0>> \o LastMsgs[m]) \o TlsPool[1] \o TlsPool[4]),
+       Mk("tls_parser_many", "parse_tls_plaintext", TlsPool[4] \o EncRecordRaw(22, 772, LastMsgs[m]) \o EncRecordRaw(22, 772, LastMsgs[m]) \o TlsPool[3]) >>])
 (* more than 2^16 bytes of records in one buffer (5 and 9 records of 16 KiB) *)
 HugeCases ==
   << Mk("tls_parser_many", "parse_tls_plaintext", Concat([j \in 1..5 |-> BigTls[1]])),
@@ -61,7 +71,7 @@ ASSUME TLCSet(1, Build(TlsPool, TlsTails, "tls_parser_many", "parse_tls_plaintex
                  \o Build(DtlsPool, DtlsTails, "parse_dtls_plaintext_records", "parse_dtls_plaintext_record")
                  \o Build(SubSeq(TlsPool, 1, 3), SubSeq(TlsTails, 1, 5), "tls_parser", "parse_tls_plaintext")
                  \o [q \in 1..Len(TlsPool) |-> Mk("tls_parser", "parse_tls_plaintext", TlsPool[q] \o TlsPool[1] \o <<22, 3>>)]
-                 \o HugeCases
+                 \o HugeCases \o LastMsgCases
                  \o MidCases(TlsPool, TlsFails, "tls_parser_many", "parse_tls_plaintext")
                  \o MidCases(DtlsPool, DtlsFails, "parse_dtls_plaintext_records", "parse_dtls_plaintext_record")
                  \o BigCases(TlsPool, BigTls, "tls_parser_many", "parse_tls_plaintext")
